@@ -443,3 +443,10 @@ func genArith(repo string) (string, error) {
 	}
 	return b.String(), nil
 }
+
+func init() {
+	register("arith", func(repo string) (string, string, error) {
+		s, err := genArith(repo)
+		return "ArithFromGo.v", s, err
+	})
+}
